@@ -350,6 +350,8 @@ func init() {
 	} {
 		externals[n] = noop
 	}
+	// gjson computes Result.Index through unsafe string headers; the index is never used here
+	externals["github.com/tidwall/gjson.fillIndex"] = noop
 	registerFmt()
 	registerErrors()
 }
@@ -374,6 +376,14 @@ func argStr(v value) string {
 func ext_time_Now(fr *frame, args []value) value {
 	// time.Time{wall, ext, loc}: wall=0 => ext holds seconds since year 1
 	const unixToInternal int64 = (1969*365 + 1969/4 - 1969/100 + 1969/400) * 86400
+	i := fr.i
+	if i.symClock {
+		// the host clock is an input: every reading is a fresh instant in [2020, 2106)
+		i.clockN++
+		v := i.tc.Var(fmt.Sprintf("hostclock!%d", i.clockN), SInt)
+		i.assume(i.tc.And(i.tc.Le(i.tc.ConstI(1577836800), v), i.tc.Lt(v, i.tc.ConstI(1<<32))), "host clock range")
+		return structure{uint64(0), symInt{i.tc.Add(v, i.tc.ConstI(unixToInternal)), types.Int64}, (*value)(nil)}
+	}
 	sec := int64(1700000000) + unixToInternal
 	return structure{uint64(0), sec, (*value)(nil)}
 }
